@@ -20,7 +20,7 @@ func functypeKey(t types.Type) (string, *types.Named) {
 	if _, isSig := nt.Underlying().(*types.Signature); !isSig {
 		return "", nil
 	}
-	return nt.Obj().Pkg().Name() + ".functype:" + nt.Obj().Name(), nt
+	return pkgID(nt.Obj().Pkg()) + ".functype:" + nt.Obj().Name(), nt
 }
 
 // contractFor returns the contract of fn: its own, or the one derived from the function type it is
@@ -353,7 +353,7 @@ func (e *Engine) fieldFnContract(fa *ssa.FieldAddr) (*Contract, *types.Signature
 		return nil, nil
 	}
 	fld := st.Field(fa.Field)
-	ct := e.contracts.Funcs[nt.Obj().Pkg().Name()+".fieldfn:"+nt.Obj().Name()+"."+fld.Name()]
+	ct := e.contracts.Funcs[pkgID(nt.Obj().Pkg())+".fieldfn:"+nt.Obj().Name()+"."+fld.Name()]
 	if ct == nil {
 		return nil, nil
 	}
